@@ -11,6 +11,9 @@ R2  spec->code: TLC enumerates every graph of the family and prints the defined 
     and compares every determined output with what TLC printed. Generators: every id sequence of length <= 4
     (mode "gen") and the full small grid n = 0..9 x fan-out 0..10 x listings x centre placements x
     pre-populated destinations (mode "grid", with the GridOK cross-check of every shape's second formulation).
+    Products: the 144 pairs of undirected graphs <= 3 nodes (mode "prod") and the products over arcs (mode "prodx"):
+    every ordered pair of digraphs <= 3 nodes held in directed or (when symmetric) undirected containers, into a
+    directed and an undirected destination, six products + ModularExt with four agreement functions.
 R3  code->spec: outputs that are only constrained by a predicate (cycle basis, colourings, spanning
     forests, degeneracy order, topological order) and all outputs on seeded random graphs up to 40 nodes
     are recorded from the real code and judged by TLC against StructuralTrace.tla.
@@ -249,6 +252,10 @@ def run(ctx):
     ctx.tlc(*r1, subst=dict(N=4, DIRECTED="TRUE", INVS=D_INV), name="R1 all digraphs <= 4 nodes: definitions agree")
     ctx.tlc(*r1, subst=dict(N=5, DIRECTED="FALSE", INVS=U_INV), name="R1 all undirected graphs <= 5 nodes: definitions agree")
     ctx.tlc(*r1, subst=dict(N=4, DIRECTED="FALSE", INVS="ProductOK"), name="R1 product sizes, graphs <= 4 x <= 3 nodes")
+    # products over arcs: second formulations (sizes in arcs, tensor forms of Tensor / Modular / CoNormal, ModularExt
+    # against Modular, reversal, what a directed / an undirected destination holds)
+    ctx.tlc(*r1, subst=dict(N=3, DIRECTED="TRUE", INVS="ProductArcOKFull" if thorough else "ProductArcOK"), workers=4,
+            name="R1 products over arcs: every digraph <= 3 nodes x %d second inputs, second formulations" % (50 if thorough else 14))
 
     # ---- R2: exhaustive enumeration replayed into gonum ---------------------------------------
     files = [
@@ -256,6 +263,9 @@ def run(ctx):
         ("und", gen(ctx, "und", 0, 5)),
         ("part", gen(ctx, "part", 0, 4, "{0,1,3}" if thorough else "{0,2}")),
         ("prod", gen(ctx, "prod", 0, 3)),
+        # products with inputs and destinations of either kind: every ordered pair of (digraph on <= 3 nodes, held in a
+        # directed container - or in an undirected one when symmetric), 82 x 82 = 6 724 pairs, arcs and edges expected
+        ("prodx", gen(ctx, "prodx", 0, 3, name="R1+R2 gen products over arcs: all pairs of stored digraphs <= 3 nodes (ProdXOK)")),
         ("gen", gen(ctx, "gen", 0, 4)),
         # the full small grid of the deterministic generators: every node count 0..9 x id listings (ascending,
         # descending, rotated, every repeated id) x centre placements x every fan-out 0..10 x empty and
@@ -269,7 +279,10 @@ def run(ctx):
         for tag, f in files:
             if bn == "tomita" and not tag.startswith("und"):
                 continue      # the tag only changes the pivot choice of the clique search
-            ctx.replay(bp, "structural", f, ["maps=%d" % (1 if bn == "tomita" else 3)], name="R2 replay %s [%s]" % (tag, bn))
+            args = ["maps=%d" % (1 if bn == "tomita" else 3)]
+            if tag == "prodx" and thorough:
+                args.append("all=1")       # every id map and the multigraph destinations for every pair
+            ctx.replay(bp, "structural", f, args, name="R2 replay %s [%s]" % (tag, bn))
 
     # ---- R3: recorded outputs judged by TLC -----------------------------------------------
     if os.path.exists(os.path.join(os.path.dirname(__file__), "..", "..", "specs", "structural", "StructuralTrace.tla")):
